@@ -93,7 +93,7 @@ fn snippet(op: &Value) -> String {
     }
 }
 
-const PROBE: &str = r#"for __pn in v1 BASH_MYVAR; do
+const PROBE: &str = r#"for __pn in v1 BASH_MYVAR TMPDIR_ORIG; do
   if __pk=$(declare -p "$__pn" 2>/dev/null); then
     __pf="${__pk%% "$__pn"*}"
     case "$__pf" in *-*A*) __kind=assoc;; *-*a*) __kind=indexed;; *) __kind=scalar;; esac
